@@ -5,3 +5,4 @@ import MongoModel.Filter
 import MongoModel.Update
 import MongoModel.Store
 import MongoModel.Ops
+import MongoModel.DateTime
